@@ -505,6 +505,18 @@ func (e *Env) sel(n *ESel) Val {
 	}
 	if p, ok := t.Underlying().(*types.Pointer); ok {
 		st, ok := p.Elem().Underlying().(*types.Struct)
+		// interior pointer (address of a struct value stored inside another object): read through the address
+		if ok && xv.Addr != nil && xv.Addr.Fam != "$struct" {
+			for i := 0; i < st.NumFields(); i++ {
+				if st.Field(i).Name() == n.Name {
+					na := *xv.Addr
+					na.Path = append(append([]pathStep{}, xv.Addr.Path...), pathStep{field: i, st: p.Elem()})
+					na.T = st.Field(i).Type()
+					return Val{T: g.load(e.state(), &na), S: g.sortOf(na.T), GT: na.T}
+				}
+			}
+			e.fail("no field %s in %s", n.Name, p.Elem())
+		}
 		if !ok {
 			e.fail("selector on pointer to non-struct")
 		}
